@@ -314,6 +314,21 @@ impl<'a, F: IVP> SolOut for DefaultSolOut<'a, F> {
                     // Check for terminal event
                     if let Some(limit) = config.terminal_count {
                         if self.event_hits[i] >= limit {
+                            // Report the requested output times that lie before the event
+                            // (sampling below is skipped by the early return)
+                            if let Some(t_eval) = self.t_eval.as_ref() {
+                                let mut k = self.next_idx;
+                                while k < t_eval.len()
+                                    && (if forward { t_eval[k] <= event_t } else { t_eval[k] >= event_t })
+                                {
+                                    let mut yi = vec![0.0; y.len()];
+                                    interpolant.unwrap().interpolate(t_eval[k], &mut yi);
+                                    self.t.push(t_eval[k]);
+                                    self.y.push(yi);
+                                    k += 1;
+                                }
+                                self.next_idx = k;
+                            }
                             // Add the terminal event point to the output
                             self.t.push(event_t);
                             self.y.push(event_y);
